@@ -80,25 +80,29 @@ theorem bindParams_rel (ps : List String) {vs vs' : List Val} (kwn : List String
 theorem constVal_wf (c : Const) (v : Val) (h : constVal c = .ok v) : VLe v v := by
   cases c <;> simp [constVal] at h <;> subst h <;> simp [VLe]
 
-theorem lamRel_none (env env' : Env) : LamRel env env' Option.none Option.none :=
-  ⟨fun _ _ _ => RLe.error _ _, fun _ _ _ _ _ _ => RLe.error _ _⟩
+theorem lamRel_none (env env' : Env) (l' : LamD) (hl' : FnLe (applyLam1 l' env') (applyLam1 l' env'))
+    (hl2' : FnLe2 (applyLam2 l' env') (applyLam2 l' env')) : LamRel env env' Option.none l' :=
+  ⟨fun _ _ _ _ => RLe.error _ _, hl', fun _ _ _ _ _ _ _ _ => RLe.error _ _, hl2'⟩
 
-/-- **Monotonicity.** -/
+theorem lamRel_none_none (env env' : Env) : LamRel env env' Option.none Option.none :=
+  lamRel_none env env' _ (fun _ _ _ _ => RLe.error _ _) (fun _ _ _ _ _ _ _ _ => RLe.error _ _)
+
+/-- **Monotonicity** (with the right-hand environment well formed). -/
 theorem denLz_mono_both (w : World) (hw : WorldOK w) :
-    (∀ e : Expr, ∀ (env env' : Env), EnvLe env env' →
+    (∀ e : Expr, ∀ (env env' : Env), EnvLe env env' → EnvLe env' env' →
         RLe (denLz w e env) (denLz w e env') ∧ HeadRel env env' (denHeadLz w e) (denHeadLz w e) ∧
         LamRel env env' (denLamLz w e) (denLamLz w e)) ∧
-    (∀ es : List Expr, ∀ (env env' : Env), EnvLe env env' →
+    (∀ es : List Expr, ∀ (env env' : Env), EnvLe env env' → EnvLe env' env' →
         All2 (DRel env env') (denLLz w es) (denLLz w es) ∧ All2 (LamRel env env') (denLamLLz w es) (denLamLLz w es)) := by
   apply Expr.size.mutual_induct
-    (motive_1 := fun e => ∀ (env env' : Env), EnvLe env env' →
+    (motive_1 := fun e => ∀ (env env' : Env), EnvLe env env' → EnvLe env' env' →
         RLe (denLz w e env) (denLz w e env') ∧ HeadRel env env' (denHeadLz w e) (denHeadLz w e) ∧
         LamRel env env' (denLamLz w e) (denLamLz w e))
-    (motive_2 := fun es => ∀ (env env' : Env), EnvLe env env' →
+    (motive_2 := fun es => ∀ (env env' : Env), EnvLe env env' → EnvLe env' env' →
         All2 (DRel env env') (denLLz w es) (denLLz w es) ∧ All2 (LamRel env env') (denLamLLz w es) (denLamLLz w es))
   case case1 =>
-    intro x env env' he
-    refine ⟨?_, by simp [denHeadLz, HeadRel], lamRel_none _ _⟩
+    intro x env env' he _
+    refine ⟨?_, by simp [denHeadLz, HeadRel], lamRel_none_none _ _⟩
     intro v hv
     simp only [denLz] at hv ⊢
     cases hx : env x with
@@ -108,119 +112,131 @@ theorem denLz_mono_both (w : World) (hw : WorldOK w) :
       obtain ⟨u', hu', huu⟩ := he x u hx
       exact ⟨u', by simp [hu'], huu⟩
   case case2 =>
-    intro c env env' _
-    exact ⟨RLe.refl_of_ok (fun v h => constVal_wf c v h), by simp [denHeadLz, HeadRel], lamRel_none _ _⟩
+    intro c env env' _ _
+    exact ⟨RLe.refl_of_ok (fun v h => constVal_wf c v h), by simp [denHeadLz, HeadRel], lamRel_none_none _ _⟩
   case case3 =>
-    intro v a ih env env' he
-    have h := (ih env env' he).1
-    refine ⟨?_, by simp only [denHeadLz, HeadRel, true_and]; exact h, lamRel_none _ _⟩
+    intro v a ih env env' he he'
+    have h := (ih env env' he he').1
+    have h' := (ih env' env' he' he').1
+    refine ⟨?_, by simp only [denHeadLz, HeadRel, true_and]; exact ⟨h, h'⟩, lamRel_none_none _ _⟩
     simp only [denLz]
     exact RLe.bind h (fun x x' hx => getAttrLz_mono a hx)
   case case4 =>
-    intro f args kwn kwv ihf iha ihk env env' he
-    refine ⟨?_, by simp [denHeadLz, HeadRel], lamRel_none _ _⟩
+    intro f args kwn kwv ihf iha ihk env env' he he'
+    refine ⟨?_, by simp [denHeadLz, HeadRel], lamRel_none_none _ _⟩
     simp only [denLz]
-    exact callSemLz_rel w hw kwn (ihf env env' he).2.1 (iha env env' he).1 (iha env env' he).2 (ihk env env' he).1
+    exact callSemLz_rel w hw kwn (ihf env env' he he').2.1 (iha env env' he he').1 (iha env env' he he').2 (ihk env env' he he').1
   case case5 =>
-    intro ps b ih env env' he
+    intro ps b ih env env' he he'
+    have lam1 : ∀ (E E' : Env), EnvLe E E' → EnvLe E' E' → FnLe (applyLam1 (some (ps, denLz w b)) E) (applyLam1 (some (ps, denLz w b)) E') := by
+      intro E E' hE hE' v v' hv hv'
+      match ps with
+      | [x] => simp only [applyLam1]; exact (ih _ _ (hE.upd x hv) (hE'.upd x hv')).1
+      | [] => exact RLe.error _ _
+      | _ :: _ :: _ => exact RLe.error _ _
+    have lam2 : ∀ (E E' : Env), EnvLe E E' → EnvLe E' E' → FnLe2 (applyLam2 (some (ps, denLz w b)) E) (applyLam2 (some (ps, denLz w b)) E') := by
+      intro E E' hE hE' a a' v v' ha ha' hv hv'
+      match ps with
+      | [x, y] =>
+        simp only [applyLam2]
+        split
+        · exact RLe.error _ _
+        · exact (ih _ _ ((hE.upd x ha).upd y hv) ((hE'.upd x ha').upd y hv')).1
+      | [] => exact RLe.error _ _
+      | [_] => exact RLe.error _ _
+      | _ :: _ :: _ :: _ => exact RLe.error _ _
     refine ⟨RLe.error _ _, ?_, ?_⟩
     · simp only [denHeadLz, HeadRel]
-      intro vs vs' kwn kvs kvs' hv hk
+      intro vs vs' kwn kvs kvs' hv hv' hk hk'
       intro out ho
       cases hb : bindParams ps vs kwn kvs env with
       | error e => rw [hb] at ho; cases ho
       | ok env2 =>
         obtain ⟨env2', hb', he2⟩ := bindParams_rel ps kwn he hv hk env2 hb
+        obtain ⟨env2'', hb'', he2'⟩ := bindParams_rel ps kwn he' hv' hk' env2' hb'
+        have : env2'' = env2' := by rw [hb'] at hb''; cases hb''; rfl
+        subst this
         rw [hb] at ho
         rw [hb']
-        exact (ih env2 env2' he2).1 out ho
+        exact (ih env2 env2'' he2 he2').1 out ho
     · simp only [denLamLz]
-      constructor
-      · intro v v' hv
-        match ps with
-        | [x] => simp only [applyLam1]; exact (ih _ _ (he.upd x hv)).1
-        | [] => exact RLe.error _ _
-        | _ :: _ :: _ => exact RLe.error _ _
-      · intro a a' v v' ha hv
-        match ps with
-        | [x, y] =>
-          simp only [applyLam2]
-          split
-          · exact RLe.error _ _
-          · exact (ih _ _ ((he.upd x ha).upd y hv)).1
-        | [] => exact RLe.error _ _
-        | [_] => exact RLe.error _ _
-        | _ :: _ :: _ :: _ => exact RLe.error _ _
+      exact ⟨lam1 env env' he he', lam1 env' env' he' he', lam2 env env' he he', lam2 env' env' he' he'⟩
   case case6 =>
-    intro v s ihv ihs env env' he
-    refine ⟨?_, by simp [denHeadLz, HeadRel], lamRel_none _ _⟩
+    intro v s ihv ihs env env' he he'
+    refine ⟨?_, by simp [denHeadLz, HeadRel], lamRel_none_none _ _⟩
     simp only [denLz]
-    exact RLe.bind (ihv env env' he).1 (fun x x' hx => RLe.bind (ihs env env' he).1 (fun i i' hi => subscriptLz_mono hx hi))
+    exact RLe.bind (ihv env env' he he').1 (fun x x' hx => RLe.bind (ihs env env' he he').1 (fun i i' hi => subscriptLz_mono hx hi))
   case case7 =>
-    intro es ih env env' he
-    refine ⟨?_, by simp [denHeadLz, HeadRel], lamRel_none _ _⟩
+    intro es ih env env' he he'
+    refine ⟨?_, by simp [denHeadLz, HeadRel], lamRel_none_none _ _⟩
     simp only [denLz]
-    apply RLeS.bindR (evalAll_rel (ih env env' he).1)
-    intro vs vs' hv out ho
+    apply RLeS.bindR (evalAll_rel (ih env env' he he').1) (evalAll_rel_self (ih env env' he he').1)
+    intro vs vs' hv _ out ho
     cases ho
     exact ⟨.tuple vs', rfl, by simpa [VLe] using hv⟩
   case case8 =>
-    intro es ih env env' he
-    refine ⟨?_, by simp [denHeadLz, HeadRel], lamRel_none _ _⟩
+    intro es ih env env' he he'
+    refine ⟨?_, by simp [denHeadLz, HeadRel], lamRel_none_none _ _⟩
     simp only [denLz]
-    apply RLeS.bindR (evalAll_rel (ih env env' he).1)
-    intro vs vs' hv out ho
+    apply RLeS.bindR (evalAll_rel (ih env env' he he').1) (evalAll_rel_self (ih env env' he he').1)
+    intro vs vs' hv _ out ho
     cases ho
     exact ⟨.list vs', rfl, by simp only [VLe]; exact hv.toL⟩
   case case9 =>
-    intro ks vs ihk ihv env env' he
-    refine ⟨?_, by simp [denHeadLz, HeadRel], lamRel_none _ _⟩
+    intro ks vs ihk ihv env env' he he'
+    refine ⟨?_, by simp [denHeadLz, HeadRel], lamRel_none_none _ _⟩
     simp only [denLz]
-    apply RLeS.bindR (evalAll_rel (ihk env env' he).1)
-    intro kv kv' hkv
-    apply RLeS.bindR (evalAll_rel (ihv env env' he).1)
-    intro vv vv' hvv
+    apply RLeS.bindR (evalAll_rel (ihk env env' he he').1) (evalAll_rel_self (ihk env env' he he').1)
+    intro kv kv' hkv _
+    apply RLeS.bindR (evalAll_rel (ihv env env' he he').1) (evalAll_rel_self (ihv env env' he he').1)
+    intro vv vv' hvv _
     rw [← VLeS.length hkv, ← VLeS.length hvv]
     split
     · exact mkDictLz_mono hkv hvv
     · exact RLe.error _ _
   case case10 =>
-    intro k args ih env env' he
-    refine ⟨?_, by simp [denHeadLz, HeadRel], lamRel_none _ _⟩
+    intro k args ih env env' he he'
+    refine ⟨?_, by simp [denHeadLz, HeadRel], lamRel_none_none _ _⟩
     simp only [denLz]
-    exact evOpLz_mono k (All2_map_env (ih env env' he).1)
+    exact evOpLz_mono k (All2_map_env (ih env env' he he').1)
   case case11 =>
-    intro kind el t i ifs a ihe _ iht ihifs env env' he
-    refine ⟨?_, by simp [denHeadLz, HeadRel], lamRel_none _ _⟩
+    intro kind el t i ifs a ihe _ iht ihifs env env' he he'
+    refine ⟨?_, by simp [denHeadLz, HeadRel], lamRel_none_none _ _⟩
     simp only [denLz]
     cases t with
     | name x =>
       simp only [targetName]
       apply compSemLz_rel
-      · exact (iht env env' he).1
-      · intro v v' hv; exact (ihe _ _ (he.upd x hv)).1
-      · intro v v' hv; exact All2_map_env (ihifs _ _ (he.upd x hv)).1
+      · exact ⟨(iht env env' he he').1, (iht env' env' he' he').1⟩
+      · intro v v' hv hv'; exact (ihe _ _ (he.upd x hv) (he'.upd x hv')).1
+      · intro v v' hv hv'; exact (ihe _ _ (he'.upd x hv) (he'.upd x hv')).1
+      · intro v v' hv hv'; exact All2_map_env (ihifs _ _ (he.upd x hv) (he'.upd x hv')).1
+      · intro v v' hv hv'; exact All2_map_env (ihifs _ _ (he'.upd x hv) (he'.upd x hv')).1
     | _ => simp only [targetName, compSemLz]; exact RLe.error _ _
   case case12 =>
-    intro env env' _
+    intro env env' _ _
     exact ⟨.nil, .nil⟩
   case case13 =>
-    intro e es ihe ihes env env' he
-    exact ⟨.cons (ihe env env' he).1 (ihes env env' he).1, .cons (ihe env env' he).2.2 (ihes env env' he).2⟩
+    intro e es ihe ihes env env' he he'
+    exact ⟨.cons ⟨(ihe env env' he he').1, (ihe env' env' he' he').1⟩ (ihes env env' he he').1,
+      .cons (ihe env env' he he').2.2 (ihes env env' he he').2⟩
 
 /-- **Monotonicity**: a more defined environment gives a more defined result. -/
-theorem denLz_mono (w : World) (hw : WorldOK w) (e : Expr) (env env' : Env) (h : EnvLe env env') :
-    RLe (denLz w e env) (denLz w e env') := ((denLz_mono_both w hw).1 e env env' h).1
+theorem denLz_mono (w : World) (hw : WorldOK w) (e : Expr) (env env' : Env) (h : EnvLe env env') (h' : EnvLe env' env') :
+    RLe (denLz w e env) (denLz w e env') := ((denLz_mono_both w hw).1 e env env' h h').1
 
 /-- every value of an expression is well formed; in particular it is not a deferred failure -/
 theorem denLz_wf (w : World) (hw : WorldOK w) (e : Expr) (env : Env) (henv : EnvLe env env) (v : Val)
     (h : denLz w e env = .ok v) : VLe v v := by
-  obtain ⟨v', hv', hvv⟩ := denLz_mono w hw e env env henv v h
+  obtain ⟨v', hv', hvv⟩ := denLz_mono w hw e env env henv henv v h
   exact hvv.lrefl
 
 theorem denLz_noPoison (w : World) (hw : WorldOK w) (e : Expr) (env : Env) (henv : EnvLe env env) (er : EErr) :
     denLz w e env ≠ .ok (.poison er) := by
   intro h
   exact VLe_poison_left (denLz_wf w hw e env henv _ h)
+
+theorem denLz_self (w : World) (hw : WorldOK w) (e : Expr) (env : Env) (henv : EnvLe env env) :
+    RLe (denLz w e env) (denLz w e env) := denLz_mono w hw e env env henv henv
 
 end Fadl
